@@ -49,7 +49,6 @@ class Derivate:
         matrix = heavy.Calculus.derivate_nonrational_bezier(vector)
         ctrlpoints = tuple(np.dot(matrix, curve.ctrlpoints))
         newcurve = curve.__class__(vector[1:-1], ctrlpoints)
-        newcurve.clean()
         return newcurve
 
     @staticmethod
